@@ -113,10 +113,29 @@ def _layout_edge(n: Node, var: str, layout: Set[str]) -> Optional[str]:
         return (isinstance(x, ast.UnaryOp) and isinstance(x.op, ast.Not) and isinstance(x.operand, ast.Name) and x.operand.id == var) or (
             isinstance(x, ast.Compare) and isinstance(x.left, ast.Name) and x.left.id == var and isinstance(x.ops[0], ast.Is) and isinstance(x.comparators[0], ast.Constant) and x.comparators[0].value is None)
 
-    if is_layout_eq(c) or is_none(c) or is_nl_end(c):
+    def covers(x: ast.AST, truth: bool) -> bool:
+        """when x evaluates to `truth`, the token is None or a layout token (whatever else holds)"""
+        if isinstance(x, ast.UnaryOp) and isinstance(x.op, ast.Not):
+            return covers(x.operand, not truth)
+        if isinstance(x, ast.BoolOp):
+            conj = isinstance(x.op, ast.And)
+            if conj == truth:
+                return any(covers(v, truth) for v in x.values)   # all operands have this truth value: one of them suffices
+            return all(covers(v, truth) for v in x.values)       # some operand has it: every one must imply it
+        if isinstance(x, ast.Name) and x.id == var:
+            return not truth                                       # falsy token variable = no token
+        if isinstance(x, ast.Compare) and isinstance(x.left, ast.Name) and x.left.id == var and len(x.ops) == 1 and isinstance(x.comparators[0], ast.Constant) and x.comparators[0].value is None:
+            return (isinstance(x.ops[0], ast.Is) and truth) or (isinstance(x.ops[0], ast.IsNot) and not truth)
+        if is_layout_eq(x) or is_nl_end(x):
+            return truth
+        if isinstance(x, ast.Compare) and attr_chain(x.left) == (var, "type") and len(x.ops) == 1 and isinstance(x.ops[0], ast.NotEq) and isinstance(x.comparators[0], ast.Constant) and x.comparators[0].value in layout:
+            return not truth
+        return False
+
+    if covers(c, True):
         return "T"
-    if isinstance(c, ast.BoolOp) and isinstance(c.op, ast.Or) and all(is_layout_eq(v) or is_none(v) or is_nl_end(v) for v in c.values):
-        return "T"
+    if covers(c, False):
+        return "F"
     return None
 
 
